@@ -19,6 +19,16 @@ pub fn replay(case: &Value) -> Option<(String, String)> {
     None
 }
 
+/// `vp-check C08free <tier>`: the free-running pass alone (used under ThreadSanitizer).
+pub fn run_free(tier: Tier) -> ! {
+    let chk = Check::new("C08free", tier, "other");
+    quiet_panics();
+    let w = World::new(tier);
+    let n = crate::sched::free_run(&w, &chk, tier.pick(300, 3000));
+    println!("C08free: compared={n} violations={}", chk.n_violations());
+    std::process::exit(if chk.n_violations() > 0 { 1 } else { 0 });
+}
+
 pub fn run(tier: Tier) -> ! {
     let chk = Check::new("C08", tier, "model_checking");
     quiet_panics();
@@ -29,12 +39,47 @@ pub fn run(tier: Tier) -> ! {
     let sr = crate::sched::explore(&w, tier, &chk);
     chk.set("schedules_explored", json!(sr.schedules));
     chk.set("schedule_assignments", json!(sr.assignments));
+    // Complementary, sampling-based passes for what call-level interleaving cannot reach (the
+    // inside of a call). A nightly probe tells whether Predictor holds interior mutability as a
+    // direct field (atomics, cells, locks); if so the sampling effort is raised 40x.
+    let freeze = probe_freeze();
+    chk.set("predictor_has_no_direct_interior_mutability", json!(freeze));
+    let effort = if freeze == Some(false) { 40 } else { 1 };
+    let cs = crate::sched::cold_start(&chk, tier.pick(200, 2000) * effort, 8);
+    chk.set("cold_start_observations_compared", json!(cs));
+    let fr = crate::sched::free_run(&w, &chk, tier.pick(100, 1000) * effort);
+    chk.set("free_running_observations_compared", json!(fr));
+    chk.assume("cold-start and free-running passes are randomised stress (sampling): complementary evidence for mid-call interleavings only, never the deciding step; a mismatch they observe is real");
     if chk.n_violations() > 0 {
         // shared mutable state between sentences makes the parallel BFS below non-replayable;
         // the schedule search is deterministic and has already decided the property
         chk.set("bfs_skipped", json!("schedule search found violations"));
         chk.nontrivial(sr.schedules);
         chk.finish("C08b only (violations found before the history search was started)", false, &replay);
+    }
+    // complementary evidence (not the deciding step): the same thread bodies free-running in a
+    // ThreadSanitizer build, when the driver could build one
+    let tsan = "/verif/target/tsan/x86_64-unknown-linux-gnu/release/vp-check";
+    if tier == Tier::Thorough && std::path::Path::new(tsan).exists() {
+        let out = std::process::Command::new(tsan).args(["C08free", "thorough"]).env("TSAN_OPTIONS", "halt_on_error=1 exitcode=66").output();
+        match out {
+            Ok(o) => {
+                let code = o.status.code();
+                chk.set("tsan_free_running_pass", json!({"ran": true, "exit": code, "stdout": String::from_utf8_lossy(&o.stdout).lines().last().unwrap_or("").to_string()}));
+                if code != Some(0) {
+                    let path = "/verif/replays/C08-tsan.txt";
+                    let err = String::from_utf8_lossy(&o.stderr).to_string();
+                    let _ = std::fs::write(path, format!("command: TSAN_OPTIONS='halt_on_error=1 exitcode=66' {tsan} C08free thorough\nstatus: {:?}\n{}\n{}", o.status, String::from_utf8_lossy(&o.stdout), err.lines().take(60).collect::<Vec<_>>().join("\n")));
+                    say(&format!("VIOLATION property=C08 replay={path}"));
+                    say(&format!("  what: free-running threads sharing predictors under ThreadSanitizer: exit {code:?}: {}", err.lines().find(|l| l.contains("ThreadSanitizer")).unwrap_or("observations differ")));
+                    chk.write_evidence_only("ThreadSanitizer free-running pass failed before the history search", 1);
+                    std::process::exit(1);
+                }
+            }
+            Err(e) => chk.set("tsan_free_running_pass", json!({"ran": false, "error": e.to_string()})),
+        }
+    } else {
+        chk.set("tsan_free_running_pass", json!({"ran": false, "reason": "thorough tier only / no ThreadSanitizer build present"}));
     }
     let r = bfs::search(&w, Mode::C08, &chk, tier.pick(400_000, 3_000_000));
     chk.set("states", json!(r.states));
@@ -55,4 +100,18 @@ pub fn run(tier: Tier) -> ! {
         !r.capped,
         &replay,
     )
+}
+
+/// Runs the nightly `Freeze` probe (harness/vp-freeze). None when it cannot be built here.
+fn probe_freeze() -> Option<bool> {
+    let out = std::process::Command::new("cargo")
+        .args(["+nightly", "run", "--release", "--offline", "-q", "--manifest-path", "/verif/harness/vp-freeze/Cargo.toml", "--target-dir", "/verif/target/freeze"])
+        .env("CARGO_NET_OFFLINE", "true")
+        .output()
+        .ok()?;
+    let s = String::from_utf8_lossy(&out.stdout).to_string();
+    if !out.status.success() || !s.contains("self_test_cell=false") || !s.contains("self_test_u8=true") {
+        return None;
+    }
+    Some(s.contains("predictor_freeze=true"))
 }
